@@ -204,7 +204,7 @@ CASES = {'keypoints': KeypointsCase(), 'helpers': HelpersCase()}
 def configs(tier, rng):
   jobs = []
   ns = (1, 2, 3, 4) if tier == 'quick' else (1, 2, 3, 4, 5)
-  clips = [(None, None), (0.5, 2.5), (1.0, None), (None, 2.0), (1.0, 1.0)]
+  clips = [(None, None), (0.5, 2.5), (1.0, None), (None, 2.0), (1.0, 1.0), (0.0, 2.0)]   # 0.0: a falsy clip bound
   for n in ns:
     for mode in ('quantiles', 'uniform'):
       for nk in (2, 3, 4):
